@@ -344,7 +344,7 @@ def cands(kind, op, status, x):
             return [[14, f, status]]
         if code == 1: return [Q("archive_write_add_filter_gzip", WM, status)]
         if code == 2: return [Q("_archive_set_options", WM, status)]
-        if code == 3: return [[15, o, i] for o in [OK, status, WARN] for i in [status, OK]]
+        if code == 3: return [[34, o, i] for o in [OK, status, WARN] for i in [status, OK]]
         if code == 4: return [[16, a, b, c] for c in [status] + S for a in [OK, status] for b in [OK, status]]
         if code == 5: return [[17, status]]
         if code == 6: return [[18, status], [18, OK]]
@@ -368,15 +368,16 @@ def cands(kind, op, status, x):
         if code == 9: return [NOCHECK(status)]
         if code == 10: return [[23, status]] if x else [[9, RDM, 0, status]]
     if kind == 3:
-        if code == 0: return [NOCHECK(status)]
+        if code == 0: return [Q("archive_write_disk_set_options", WDM, status)]
         if code == 1: return [PAIR("archive_write_disk_set_group_lookup", "archive_write_disk_set_user_lookup", WDM)]
-        if code == 2: return [[26, f, e, status, n] for f in sorted(set([OK, status, FATAL, FAILED])) for e in (0, 1) for n in (0, 1)]
+        if code == 2: return [[26, f, fe, e, status, n, fd] for f in sorted(set([OK, status, FATAL, FAILED])) for fe in (0, 1) for e in (0, 1)
+                              for n in (0, 1) for fd in (0, 1)]
         if code == 3: return [[27, status]]
         if code == 4: return [[28, status]]
-        if code == 5: return [[29, status], [29, OK]]
-        if code == 6: return [[30, status]]
+        if code == 5: return [[29, status, 0], [29, status, 1], [29, OK, 0]]
+        if code == 6: return [[30, status, 0], [30, status, 1]]
         if code == 7: return [FAIL()]
-        if code == 8: return [[31, status], [31, OK]]
+        if code == 8: return [[31, status, 0], [31, status, 1], [31, OK, 0]]
         if code == 9: return [NOCHECK(status)]
         if code == 10: return [Q("archive_write_disk_set_skip_file", WDM, status)]
     if kind == 4:
